@@ -2,7 +2,8 @@
 # ASan+UBSan), the vendored reference build (refsrc, namespace nifly_ref), and the simulator.
 NIFLY_REPO ?= /repo
 B          ?= build
-CXX        := ccache clang++
+# (no ccache: it was observed to hand back a stale object for a file that alternates between two contents)
+CXX        := clang++
 STD        := -std=c++17
 INC_CUR    := -I$(NIFLY_REPO)/include -I$(NIFLY_REPO)/external
 INC_REF    := -Irefsrc/include -Irefsrc/external
